@@ -12,7 +12,7 @@ BIG = 10 ** 4
 @st.composite
 def cases(draw, tier):
     big = tier == "thorough"
-    mode = draw(st.sampled_from(["exact", "exact", "poly", "poly", "cmf", "conserve", "limit", "adaptive", "td", "td_adaptive", "solver"]))
+    mode = draw(st.sampled_from(["exact", "exact", "exact", "poly", "poly", "cmf", "conserve", "limit", "adaptive", "td", "td_adaptive", "solver"]))
     spec = draw(chain.chain_model_specs(2, 5 if big else 4, max_dim=64 if not big else 128))
     terms = draw(gen.hermitian_hamiltonian(spec, max_terms=4))
     c = {"mode": mode, "model": spec, "terms": terms, "q": draw(st.integers(0, 50)), "rng": draw(st.integers(0, 10 ** 6)),
@@ -21,7 +21,7 @@ def cases(draw, tier):
          "nsplit": draw(st.integers(1, 3)), "split_w": draw(st.lists(st.sampled_from([1, 2, 3]), min_size=3, max_size=3)),
          "dm": draw(st.integers(0, 4)) == 0}
     if mode == "exact":
-        c["scheme"] = draw(evo.scheme_specs(("ps", "ps2", "vmf")))
+        c["scheme"] = draw(evo.scheme_specs(("ps", "ps2", "vmf", "vmf")))
     elif mode == "poly":
         c["scheme"] = draw(evo.scheme_specs(("pc",)))
     elif mode == "cmf":
@@ -40,7 +40,10 @@ def cases(draw, tier):
         c["scheme"] = draw(st.sampled_from([{"fam": "pc", "kind": "pc_taylor", "order": 5}, {"fam": "pc", "kind": "pc_tdrk", "rk": "RKF45"},
                                             {"fam": "pc", "kind": "pc_tdrk", "rk": "Cash-Karp45"},
                                             {"fam": "ps", "kind": "tdvp_ps", "solver": "krylov"},
-                                            {"fam": "ps2", "kind": "tdvp_ps2", "solver": "krylov"}]))
+                                            {"fam": "ps2", "kind": "tdvp_ps2", "solver": "krylov"},
+                                            {"fam": "cmf", "kind": "tdvp_mu_cmf", "variant": "midpoint", "solver": "krylov", "force_ovlp": True},
+                                            {"fam": "cmf", "kind": "tdvp_mu_cmf", "variant": "trapz", "solver": "krylov", "force_ovlp": False}]))
+        c["rescale"] = draw(st.sampled_from([[300.0, 0.3], [1e-3, 0.0], [40.0, -2.0]]))
         c["rtol"] = draw(st.sampled_from([1e-6, 1e-5, 1e-4]))
         c["guess"] = draw(st.sampled_from([0.05, 0.3, 1.0, 10.0]))
     elif mode == "td":
@@ -141,7 +144,7 @@ class C09(Prop):
                    "VMF/CMF start from non-redundant bonds (canonicalised twice)"]
 
     def budget(self, tier):
-        return dict(examples=480, shards=16) if tier == "quick" else dict(examples=8000, shards=16)
+        return dict(examples=1280, shards=16) if tier == "quick" else dict(examples=24000, shards=16)
 
     def strategy(self, tier):
         return cases(tier)
@@ -190,10 +193,30 @@ class C09(Prop):
                 return evo.expm_apply(H, v, z)  # H acts on the ket index of the density operator: exp(zH) rho
             return evo.expm_apply(H, v, z)
 
+        CFG_FIELDS = ("method", "adaptive", "adaptive_rtol", "tdvp_cmf_midpoint", "tdvp_cmf_c_trapz", "reg_epsilon", "ivp_rtol",
+                      "ivp_atol", "ivp_solver", "force_ovlp", "vmf_auto_switch")
+
+        def cfg_view(c):
+            return {k: getattr(c, k, None) for k in CFG_FIELDS}
+
         def evolve(x, dt, cfg, cc=None, normalize=None):
             x.evolve_config = cfg
             x.compress_config = cc if cc is not None else lossless.copy()
-            return x.evolve(mpo, dt, normalize=case["normalize"] if normalize is None else normalize)
+            want = cfg_view(cfg)
+            y = x.evolve(mpo, dt, normalize=case["normalize"] if normalize is None else normalize)
+            # "the result does not depend on how t is split into successive calls": the next call is made on the returned state, so
+            # it must carry the scheme it was produced with (everything except the adaptive controller's step guess), and the
+            # caller's configuration object must not have been re-configured either
+            got_new, got_in = cfg_view(y.evolve_config), cfg_view(x.evolve_config)
+            if want["vmf_auto_switch"] and {str(want["method"]), str(got_new["method"])} <= {"EvolveMethod.tdvp_vmf", "EvolveMethod.tdvp_mu_vmf"}:
+                got_new["method"] = want["method"]  # documented: the two VMF variants switch automatically on the returned state
+            r.check("config.returned_state", got_new == want,
+                    f"evolve_config of the returned state differs from the one evolved with: "
+                    f"{ {k: (want[k], got_new[k]) for k in CFG_FIELDS if want[k] != got_new[k]} }")
+            r.check("config.input_state", got_in == want,
+                    f"evolve_config of the input state was changed by evolve: "
+                    f"{ {k: (want[k], got_in[k]) for k in CFG_FIELDS if want[k] != got_in[k]} }")
+            return y
 
         moved = np.linalg.norm(apply_ref(-1j * t, psi0) - psi0) / max(np.linalg.norm(psi0), 1e-300)
         if np.linalg.norm(H @ psi0 if not use_dm else H @ psi0) <= 1e-6 * np.linalg.norm(psi0):
@@ -343,13 +366,31 @@ class C09(Prop):
         ref = apply_ref(-1j * t, psi0)
         nrm = np.linalg.norm(psi0)
         # acceptance rule of the code: local estimate up to 2^order*rtol per sub-step; the number of sub-steps is bounded by the
-        # step-size controller (p >= 0.1 per retry); generous calibrated constant
-        tol = (2000.0 * rtol * max(1.0, t) + 5e-5) * nrm
+        # step-size controller (p >= 0.1 per retry); calibrated constant (worst observed over 12800 cases: 26*rtol*max(1,t))
+        tol = (100.0 * rtol * max(1.0, t) + 5e-6) * nrm
+        if s["fam"] == "cmf":
+            tol += 5e-3 * nrm  # the inner sites of CMF are integrated with scipy's default rtol (see mode_cmf)
         err = np.linalg.norm(got - ref)
         r.resid(f"adaptive.{s['kind']}.err_over_tol", err / tol, 1.0)
         r.check(f"adaptive.{s['kind']}", err <= tol, f"{s} rtol={rtol} guess={case['guess']}: error {err:.3e} > {tol:.3e}")
         g = new.evolve_config.guess_dt
         r.check("adaptive.guess_dt_sign", np.real(g) > 0 and abs(np.imag(g)) == 0, f"guess_dt after real-time evolution: {g}")
+        # metamorphic: the step-size controller works with RELATIVE errors, so the run on c*psi (same tensors, prefactor c) accepts
+        # the same sub-steps and returns c times the result; a controller that mixes the prefactor into its error measure loosens
+        # or tightens the requested tolerance by |c|
+        if case.get("rescale") and not use_dm:
+            c = case["rescale"][0] * np.exp(1j * case["rescale"][1])
+            m2 = mps.copy()
+            m2.coeff = m2.coeff * c
+            cfg2 = evo.make_evolve_config(s, adaptive=True, guess_dt=min(case["guess"], 10.0), adaptive_rtol=rtol)
+            new2 = evolve(m2, t, cfg2, normalize=False)
+            got2 = chain.dense_of(new2)
+            sc = abs(c) * max(np.linalg.norm(got), 1e-300)
+            r.resid("adaptive.scale_covariance", np.linalg.norm(got2 - c * got) / sc, 1e-9)
+            r.check(f"adaptive.scale_covariance.{s['kind']}", np.linalg.norm(got2 - c * got) <= 1e-9 * sc,
+                    f"{s} rtol={rtol}: evolve(c*psi) differs from c*evolve(psi) by {np.linalg.norm(got2 - c * got) / sc:.3e} (relative), "
+                    f"c={c}")
+            r.classes.append("adaptive.scale_covariance")
 
     # ---- time-dependent Hamiltonian ------------------------------------------------------------------------------------
     def mode_td(self, case, r, mps, mpo, H, psi0, t, evolve, apply_ref, model, q, spec, use_dm):
